@@ -274,8 +274,10 @@ structure PW where
   file : List UInt8 := []
   /-- `writer != nil` -/
   isOpen : Bool := true
-  /-- `LogWriter`: `blockNum*blockSize + written` -/
+  /-- `LogWriter`: `blockNum*blockSize + written`, the logical offset `SyncRecord` returns -/
   pos : Nat := 0
+  /-- `LogWriter`: `block.written`, the offset inside the block being filled -/
+  written : Nat := 0
   /-- `currentWALSyncedOffset` -/
   synced : Nat := 0
   deriving DecidableEq, Repr
@@ -296,21 +298,21 @@ inductive PEv where
 /-- `closeAndRepairCurrent(w.currentWALSyncedOffset, force)`, the truncation succeeding -/
 def PW.closeRepair (w : PW) (c : Cfg) (t : Nat) (force : Bool) : PW :=
   let f := w.file ++ (trailer c).take t
-  if t = 11 ∧ !force then { file := f, isOpen := false, pos := 0, synced := 0 }
-  else { file := repairTail f w.synced, isOpen := false, pos := 0, synced := 0 }
+  if t = 11 ∧ !force then { file := f, isOpen := false, pos := 0, written := 0, synced := 0 }
+  else { file := repairTail f w.synced, isOpen := false, pos := 0, written := 0, synced := 0 }
 
 def PW.step (c : Cfg) (w : PW) : PEv → PW
   | .appendOk p =>
     if !w.isOpen then w else
-    let e := emitRecord c (w.pos % c.B) p
-    { w with file := w.file ++ e.1, pos := w.pos + e.1.length, synced := w.pos + e.1.length }
+    let e := emitRecord c w.written p
+    { w with file := w.file ++ e.1, pos := w.pos + e.1.length, written := e.2, synced := w.pos + e.1.length }
   | .appendTorn p k t =>
     if !w.isOpen then w else
-    let e := emitRecord c (w.pos % c.B) p
+    let e := emitRecord c w.written p
     ({ w with file := w.file ++ e.1.take k } : PW).closeRepair c t true
   | .appendSyncFail p t =>
     if !w.isOpen then w else
-    let e := emitRecord c (w.pos % c.B) p
+    let e := emitRecord c w.written p
     ({ w with file := w.file ++ e.1 } : PW).closeRepair c t true
   | .close t => if !w.isOpen then w else w.closeRepair c t false
 
